@@ -29,7 +29,8 @@ func (v *ScriptView) writeCreateSQLForATable(
 		tableData += s
 	}
 	tableData = v.addConstraints(tableData, tableName, foreignKeyConstraints, primaryKeys)
-	tableData = strings.TrimSuffix(tableData, ",")
+	// a table without a key and without references ends with its last column: "  name type,\n"
+	tableData = strings.TrimSuffix(strings.TrimSuffix(tableData, "\n"), ",")
 	v.stringBuilder.WriteString(tableData)
 	v.stringBuilder.WriteString("\n);\n")
 }
